@@ -75,7 +75,7 @@ def refuse_rules(facts, rep):
     enc = [x for x in fs if x[0] in ("Ne", "Eq") and any(y[0] == "bin" and y[1] == "BitAnd" and y[3] == ("const", "u16", 1) for y in walk(x[1]))]
     dd = [x for x in fs if x[0] in ("Ne", "Eq") and any(y[0] == "bin" and y[1] == "BitAnd" and single_bit(y[3]) == 3 for y in walk(x[1]))]
     # encrypted = (flags & 1 == 1) must be false: fact Ne(flags&1, 1); dd = (flags & 8 != 0) must be false: fact Eq(flags&8, 0)
-    good_e = any(x[0] == "Ne" and x[2][2] == 1 for x in enc)
+    good_e = any((x[0] == "Ne" and x[2][2] == 1) or (x[0] == "Eq" and x[2][2] == 0) for x in enc)       # "bit 0 is clear", either spelling
     good_d = any(x[0] == "Eq" and x[2][2] == 0 for x in dd)
     ok &= rep.check(good_e, rule, "encrypted-refused", where(st, tk[0][1]["span"]), "flag bit 0 set => error before the entry window is created",
                     "encrypted local entries are not refused before the reader is built")
